@@ -49,6 +49,8 @@ def untag(v):
     if isinstance(v, dict):
         if set(v) == {"$f"}:
             return bits2f(int(v["$f"], 16))
+        if set(v) == {"$b"}:
+            return bytes(v["$b"])
         return {k: untag(x) for k, x in v.items()}
     if isinstance(v, list):
         return [untag(x) for x in v]
@@ -1727,6 +1729,228 @@ class TablePaths(StructFamily):
         return []
 
 
+# --------------------------------------------------------------------------
+# rows moved between tables whose metadata schemas differ
+# --------------------------------------------------------------------------
+
+def json_schema_from_struct(s):
+    """a typed JSON-codec schema with the shape of struct schema node s"""
+    t = s.get("type")
+    if isinstance(t, list) or t == "object":
+        props = {k: json_schema_from_struct(p) for k, p in s.get("properties", {}).items()}
+        return {"type": "object", "properties": props, "required": sorted(props), "additionalProperties": False}
+    if t == "array":
+        return {"type": "array", "items": json_schema_from_struct(s["items"])}
+    return {"type": "number" if t in ("number", "integer") else t}
+
+
+def struct_variant(rng, a):
+    """a struct schema related to a: same, wider formats, other order, a property dropped/added,
+    another string width"""
+    b = json.loads(json.dumps(a))
+    props = b["properties"]
+    k = rng.choice(["same", "widen", "reorder", "drop", "add", "width"])
+    if k == "widen":
+        for p in props.values():
+            if p.get("binaryFormat") in ("b", "h", "i", "l"):
+                p["binaryFormat"] = "q"
+            elif p.get("binaryFormat") == "f":
+                p["binaryFormat"] = "d"
+    elif k == "reorder":
+        for j, p in enumerate(sorted(props, reverse=True)):
+            props[p]["index"] = j
+    elif k == "drop" and len(props) > 1:
+        del props[rng.choice(sorted(props))]
+        b.pop("required", None)
+    elif k == "add":
+        props["added_"] = {"type": "integer", "binaryFormat": "B"}
+        b.pop("required", None)
+    elif k == "width":
+        for p in props.values():
+            if p.get("type") == "string" and p["binaryFormat"][-1] == "s":
+                p["binaryFormat"] = "%ds" % rng.choice([1, 3, 9])
+    return b
+
+
+def expected_object(schema, tv):
+    """the object row.metadata shows for a value stored under `schema` (None = no schema)"""
+    v = untag(tv)
+    if schema is None:
+        return v
+    if schema.get("codec") == "json":
+        if isinstance(v, dict):
+            d = {k: p["default"] for k, p in schema.get("properties", {}).items() if "default" in p}
+            return dict(d, **v)
+        return v
+    return ref_norm(schema, v)
+
+
+TRANSFER_KINDS = ["nodes", "individuals", "populations", "sites", "mutations"]
+TRANSFER_OPS = [("setitem", False), ("setitem", True), ("append", False), ("append", True),
+                ("setitem_replace", False), ("append_replace", False), ("setitem_ts", False), ("setitem_ts", True),
+                ("append_ts", False)]
+
+
+class RowTransfer(Family):
+    """dst[j] = row / dst.append(row) for rows taken from another table or a tree sequence whose
+    metadata schema differs from the destination's (json <-> struct, permissive -> strict, struct ->
+    related struct, schema <-> no schema), with and without reading row.metadata first, and through
+    row.replace(): the destination schema must validate and encode the *object* (or raise); what
+    dst[j].metadata then shows is that object in the destination's normal form."""
+    name = "row_transfer"
+    workers = 8
+    timeout = 60.0
+
+    def generate(self, rng, tier):
+        n = 160 if tier == "quick" else 2500
+        made = 0
+        while made < n:
+            mode = rng.choice(["s2j", "s2jt", "j2s", "j2s", "s2s", "s2s", "s2n", "n2s", "j2j", "n2j", "j2n"])
+            a = gen_struct_schema(rng, depth=rng.choice([1, 2]), plain=True, objnull=False)
+            if not a["properties"] or exhaust_info(a)[0]:
+                continue
+            vals = [asciify(gen_value(rng, a)) for _ in range(2)]
+            try:
+                objs = [ref_norm(a, v) for v in vals]
+                [ref_encode(a, v) for v in vals]
+            except (Domain, SplitChar):
+                continue
+            src, dst, filler = a, None, None
+            if mode == "s2j":
+                dst, filler = {"codec": "json"}, {}
+            elif mode == "s2jt":
+                dst = dict(json_schema_from_struct(a), codec="json")
+                filler = objs[0]
+                if rng.random() < 0.4:                    # stricter: a key the source rows do not have
+                    dst["required"] = dst["required"] + ["missing_"]
+                    dst["properties"]["missing_"] = {"type": "integer"}
+                    filler = dict(objs[0], missing_=1)
+            elif mode == "j2s":
+                src, dst, filler = {"codec": "json"}, a, vals[0]
+                vals = [objs[0], objs[1]]                  # JSON-representable objects that fit the struct schema ...
+                if rng.random() < 0.4:
+                    m, kind = mutate_value(rng, a, vals[1])   # ... or not
+                    if kind:
+                        vals[1] = m
+            elif mode == "s2s":
+                dst = struct_variant(rng, a)
+                try:
+                    filler = asciify(gen_value(rng, dst))
+                    ref_encode(dst, filler)
+                except (Domain, SplitChar):
+                    continue
+            elif mode == "s2n":
+                dst, filler = None, b""
+            elif mode == "n2s":
+                src, dst, filler = None, a, vals[0]
+                vals = [ref_encode(a, vals[0]), b"", b"\x00\x01"]
+            elif mode == "j2j":
+                src = {"codec": "json"}
+                dst = dict(json_schema_from_struct(a), codec="json")
+                filler = objs[0]
+                vals = [objs[0], rng.choice([{}, {"x": 1}, objs[1]])]
+            elif mode == "n2j":
+                src, dst, filler = None, {"codec": "json"}, {}
+                vals = [b'{"a":1}', b""]
+            elif mode == "j2n":
+                src, dst, filler = {"codec": "json"}, None, b""
+                vals = [objs[0], {}]
+            made += 1
+            yield {"mode": mode, "src": src, "dst": dst, "values": [tag(v) for v in vals], "filler": tag(filler),
+                   "kind": TRANSFER_KINDS[made % len(TRANSFER_KINDS)]}
+
+    def observe(self, case):
+        import tskit
+        kind = case["kind"]
+        msA = tskit.MetadataSchema(case["src"])
+        msB = tskit.MetadataSchema(case["dst"])
+        n = len(case["values"])
+        tcA, resA = add_rows(kind, msA, case["values"])
+        if any(isinstance(x, dict) for x in resA):
+            return {"source_rejected": resA}
+        tcA.build_index()
+        tsA = tcA.tree_sequence()
+        out = []
+        for op, touch in TRANSFER_OPS:
+            for i in range(n):
+                tcB, resB = add_rows(kind, msB, [case["filler"]] * n)
+                if any(isinstance(x, dict) for x in resB):
+                    return {"filler_rejected": resB}
+                tB = getattr(tcB, kind)
+                before = [list(raw_row(tB, j)) for j in range(len(tB))]
+                row = getattr(tsA, ROW_ACCESSOR[kind])(i) if op.endswith("_ts") else getattr(tcA, kind)[i]
+                rec = {"op": op, "touch": touch, "i": i}
+
+                def do():
+                    r = row
+                    if touch:
+                        r.metadata
+                    if "replace" in op:
+                        r = r.replace()
+                    if op.startswith("setitem"):
+                        tB[i] = r
+                        return i
+                    return int(tB.append(r))
+                st, j = guarded(do, ENC_SECONDS)
+                if st != "ok":
+                    rec["enc"] = {"exc": j} if st == "exc" else "HANG"
+                    rec["unchanged"] = [list(raw_row(tB, k)) for k in range(len(tB))] == before
+                else:
+                    rec["enc"] = list(raw_row(tB, j))
+                    st, d = guarded(lambda: tB[j].metadata)
+                    rec["dec"] = tag(d) if st == "ok" else ({"exc": d} if st == "exc" else "HANG")
+                    rec["others_unchanged"] = [list(raw_row(tB, k)) for k in range(n) if k != j] == \
+                        [before[k] for k in range(n) if k != j]
+                out.append(rec)
+        return {"ops": out}
+
+    def oracle(self, case, obs):
+        if "ops" not in obs:
+            return [("adapter-transfer-setup", "could not set the case up: %r" % (obs,))]
+        out = []
+        dst = case["dst"]
+        for rec in obs["ops"]:
+            tv = case["values"][rec["i"]]
+            obj = tag(expected_object(case["src"], tv))
+            where = "%s%s" % (rec["op"], "+touched" if rec["touch"] else "")
+            fs = self.expect(dst, obj, rec)
+            out += [("transfer-" + k, "%s (%s -> %s, %s): %s" % (where, case["mode"], "dst", case["kind"], m)) for k, m in fs]
+            if isinstance(rec["enc"], dict) and rec.get("unchanged") is False:
+                out.append(("transfer-rejected-row-stored", "%s raised but the destination changed" % where))
+            if rec.get("others_unchanged") is False:
+                out.append(("transfer-other-rows-changed", where))
+        return dedup(out)
+
+    def expect(self, dst, obj, rec):
+        """the destination schema validates and encodes the object"""
+        enc, dec = rec["enc"], rec.get("dec")
+        v = untag(obj)
+        if dst is None:
+            if isinstance(v, bytes):
+                ok = enc == list(v) and deep_eq(dec, obj)
+                return [] if ok else [("no-schema-bytes", "bytes %r stored as %r" % (obj, enc))]
+            return [] if enc == {"exc": "TypeError"} else [("no-schema-object-accepted", "object %r -> %r" % (obj, enc))]
+        if isinstance(v, bytes):
+            # (the permissive JSON schema skips validation; its encoder then refuses bytes)
+            ok = enc in ({"exc": VALIDATION}, {"exc": "MetadataEncodingError"})
+            return [] if ok else [("bytes-into-schema-accepted", "raw bytes %r -> %r" % (obj, enc))]
+        if dst.get("codec") == "json":
+            if not ref_valid(dst, v, struct_codec=False):
+                return [] if enc == {"exc": VALIDATION} else [("invalid-object-not-rejected", "%r -> %r" % (obj, enc))]
+            if not isinstance(enc, list) or bytes(enc) != canonical(v):
+                return [("json-not-reencoded", "object %r stored as %r, canonical JSON is %r"
+                         % (obj, bytes(enc) if isinstance(enc, list) else enc, canonical(v)))]
+            want = tag(expected_object(dst, obj))
+            return [] if deep_eq(dec, want) else [("roundtrip", "reads back %r, expected %r" % (dec, want))]
+        return oracle_row(dst, obj, {"enc": enc, "dec": dec} if dec is not None else {"enc": enc})
+
+    def nontrivial(self, case, obs):
+        return "ops" in obs
+
+    def describe(self, case, obs):
+        return {"mode": case["mode"], "kind": case["kind"]}
+
+
 def gen_fixed_node(rng, depth):
     r = rng.random()
     if depth <= 0 or r < 0.6:
@@ -2333,7 +2557,7 @@ class StructDecodeBytes(StructFamily):
                 yield c
 
 
-FAMILIES = [StructDecodeBytes, StructRoundTrip, StructInvalidValue, StructExhaust, StructInvalidSchema, TablePaths, NumpyView, JsonCodec]
+FAMILIES = [RowTransfer, StructDecodeBytes, StructRoundTrip, StructInvalidValue, StructExhaust, StructInvalidSchema, TablePaths, NumpyView, JsonCodec]
 
 NOT_COVERED = [
     "stringEncoding other than utf-8/ascii/latin-1 in the Coq model (utf-16/utf-32 variants are generated and checked by the oracle only: strings are byte lists after str.encode in the model)",
